@@ -57,6 +57,18 @@ func runC12(l *core.Ledger) {
 	l.With(map[string]string{"C08-B3": "C12-X2"}, func() { c08B3x(l, r, false) })
 	c12X7(l, r)
 	c12X9(l, r)
+	// X10: Close reaches a node through what the node carries when Close sees it: the cancel
+	// function and the channel are set before the node enters the pool (C15's write-once-before-
+	// publication rule for these two fields, re-run) - a node inserted first and connected afterwards
+	// can be closed while it has nothing to cancel yet, and then starts goroutines nobody stops
+	l.Rule("C12-X10", "a node is complete before Close can see it: RawNode.cancel and RawNode.channel are written only before the node is inserted into the pool (C15-O1 re-run for these fields)")
+	l.With(map[string]string{"C15-O1": "C12-X10"}, func() {
+		for _, row := range c15Table {
+			if row.typ == "RawNode" && (row.field == "cancel" || row.field == "channel") && row.kind == "once" {
+				c15Once(l, r, row, collectAccesses(l, r, row.typ, row.field), row.typ+"."+row.field)
+			}
+		}
+	})
 }
 
 // c12X9: Close closes the nodes of a snapshot of the pool. A node that enters
